@@ -25,7 +25,7 @@ var R = hx.NewRecorder("C15", "cases = (endpoint kind: GMSSL client | GMSSL-only
 	"oracle = Handshake() returns (quiescence of the in-memory transport turns waiting into EOF; a read-after-EOF counter catches spinning), returns an error for every true deviation, HandshakeComplete stays false, no panic; legal variations (fragmented or coalesced messages, unknown ticket) must still succeed; non-trivial = deviation applied after at least one valid message or in the first message; distinct by hash of the plan")
 
 func TestMain(m *testing.M) {
-	R.Require("junk_certificate_verify", "jcv_vers:300", "ecdhe_ske", "hello_ext_sweep", "dev:big_record", "replay_deep:gmclient", "replay_deep:tlsclient", "replay_deep:gmserver", "replay_deep:tlsserver", "replay_deep:autoserver", "replay_control", "replay:omit_msg", "replay:hello_ext", "replay:swap_msgs", "hello_vector_lengths", "dev:cke_ciphertext_byte", "dev:cert_list", "peer_pressed_on_after_alert", "endpoint:gmclient", "endpoint:gmserver", "endpoint:autoserver", "endpoint:tlsserver", "endpoint:tlsclient", "vers_sweep_done", "dev:omit", "dev:repeat", "dev:retype", "dev:reorder", "dev:truncate", "dev:len_field", "dev:split", "dev:coalesce",
+	R.Require("junk_certificate_verify", "jcv_vers:300", "ecdhe_ske", "hello_ext_sweep", "dev:big_record", "replay_deep:gmclient", "replay_deep:tlsclient", "replay_deep:gmserver", "replay_deep:tlsserver", "replay_deep:autoserver", "replay_control", "replay:omit_msg", "replay:hello_ext", "replay:swap_msgs", "hello_vector_lengths", "dev:cke_ciphertext_byte", "dev:cert_list", "dev:inner_len", "dev:alert_flood", "inner_length_sweep", "peer_pressed_on_after_alert", "endpoint:gmclient", "endpoint:gmserver", "endpoint:autoserver", "endpoint:tlsserver", "endpoint:tlsclient", "vers_sweep_done", "dev:omit", "dev:repeat", "dev:retype", "dev:reorder", "dev:truncate", "dev:len_field", "dev:split", "dev:coalesce",
 		"dev:oversize", "dev:ccs_early", "dev:appdata_early", "dev:alert_fatal", "dev:unknown_record", "dev:close", "dev:record_overflow", "replay_perturbed", "legal_must_succeed", "cke_1byte", "hostile_suites")
 	for d := 0; d <= 5; d++ {
 		R.Require(fmt.Sprintf("depth:%d", d))
@@ -43,7 +43,7 @@ type deviation struct {
 var serverSteps = []string{"ServerHello", "Certificate", "ServerKeyExchange", "CertificateRequest", "ServerHelloDone", "ChangeCipherSpec", "Finished"}
 var clientSteps = []string{"ClientHello", "ClientCertificate", "ClientKeyExchange", "CertificateVerify", "ChangeCipherSpec", "Finished"}
 
-var devKinds = []string{"omit", "repeat", "retype", "reorder", "truncate", "truncate_fixlen", "len_field", "split", "coalesce", "oversize", "ccs_early", "appdata_early", "alert_fatal", "alert_warning", "unknown_record", "unknown_hstype", "close", "record_overflow", "inner_byte", "cert_list", "big_record"}
+var devKinds = []string{"omit", "repeat", "retype", "reorder", "truncate", "truncate_fixlen", "len_field", "split", "coalesce", "oversize", "ccs_early", "appdata_early", "alert_fatal", "alert_warning", "unknown_record", "unknown_hstype", "close", "record_overflow", "inner_byte", "cert_list", "big_record", "inner_len", "inner_len", "alert_flood"}
 
 func hsRecord(data []byte) []byte {
 	return append([]byte{22, 1, 1, byte(len(data) >> 8), byte(len(data))}, data...)
@@ -182,6 +182,14 @@ func planFor(d deviation) (*rgmssl.Plan, *bool, bool, string) {
 			return []rgmssl.Out{{RecType: rgmssl.RecAlert, Data: []byte{2, []byte{10, 20, 40, 42, 47, 50, 80}[d.K%7]}}}
 		case "alert_warning":
 			return []rgmssl.Out{{RecType: rgmssl.RecAlert, Data: []byte{1, []byte{41, 90, 100, 112}[d.K%4]}}, o}
+		case "alert_flood":
+			// a few warning alerts may be tolerated (see alert_warning); a peer that sends them without end keeps the endpoint
+			// busy for as long as it likes, so a long run of them (64..2063 in a row) must end the handshake
+			var outs []rgmssl.Out
+			for i := 0; i < 64+d.K%2000; i++ {
+				outs = append(outs, rgmssl.Out{RecType: rgmssl.RecAlert, Data: []byte{1, []byte{41, 90, 100, 112}[(d.K+i*int(d.Val%4))%4]}})
+			}
+			return append(outs, o)
 		case "unknown_record":
 			return []rgmssl.Out{{RawRecord: true, Data: []byte{byte(24 + d.K%200), 1, 1, 0, 2, 0, 0}}, o}
 		case "unknown_hstype":
@@ -223,6 +231,31 @@ func planFor(d deviation) (*rgmssl.Plan, *bool, bool, string) {
 			body = append([]byte{byte(len(body) >> 16), byte(len(body) >> 8), byte(len(body))}, body...)
 			o.Data = append([]byte{11, byte(len(body) >> 16), byte(len(body) >> 8), byte(len(body))}, body...)
 			return []rgmssl.Out{o}
+		case "inner_len":
+			// one length or count field INSIDE the message body is set to another value while the bytes around it stay: the
+			// body no longer adds up (a stray byte behind the last entry, an entry reaching beyond its list, ...)
+			fields := innerLenFields(data)
+			if !isHS || len(fields) == 0 {
+				*fired = false
+				return []rgmssl.Out{o}
+			}
+			lastInnerFields = len(fields)
+			f := fields[d.K%len(fields)]
+			cur := 0
+			for j := 0; j < f[1]; j++ {
+				cur = cur<<8 | int(data[f[0]+j])
+			}
+			cands := []int{cur - 1, cur + 1, cur - 2, cur + 2, 0, 2 * cur, 1<<(8*uint(f[1])) - 1, cur / 2}
+			v := cands[(d.K/len(fields))%len(cands)]
+			if v < 0 || v == cur || v >= 1<<(8*uint(f[1])) {
+				v = cur + 1
+			}
+			for j, x := f[1]-1, v; j >= 0; j-- {
+				data[f[0]+j] = byte(x)
+				x >>= 8
+			}
+			o.Data = data
+			return []rgmssl.Out{o}
 		case "big_record":
 			// a Certificate message of 16.4..18 KiB (many certificates): fragmented at 2^14 it is legal and must be
 			// accepted (K even); as ONE record it exceeds the plaintext limit although it stays below the ciphertext
@@ -241,6 +274,99 @@ func planFor(d deviation) (*rgmssl.Plan, *bool, bool, string) {
 		return []rgmssl.Out{o}
 	}
 	return p, fired, legal, eff
+}
+
+var lastInnerFields int // number of inner length fields of the message the last "inner_len" deviation hit
+
+// every inner length field of every scripted GM/T 0024 handshake message x every candidate value, against the client and
+// both server kinds (the generated deviations above sample this grid; here it is enumerated)
+func TestC15_InnerLengthSweep(t *testing.T) {
+	p := tlsx.GetPKI()
+	var n int64
+	for _, ep := range []string{"gmclient", "gmserver", "autoserver"} {
+		steps := []string{"Certificate", "ServerKeyExchange", "CertificateRequest"}
+		if ep != "gmclient" {
+			steps = []string{"ClientCertificate", "ClientKeyExchange", "CertificateVerify"}
+		}
+		for _, step := range steps {
+			for ncas := 0; ncas <= 2; ncas++ {
+				if step != "CertificateRequest" && ncas > 0 {
+					continue
+				}
+				nf := 1
+				for k := 0; k < nf*8; k++ {
+					d := deviation{Kind: "inner_len", Step: step, K: k}
+					plan, fired, _, _ := planFor(d)
+					plan.IgnoreAlerts = k%2 == 1
+					seed := fmt.Sprint("ils", ep, step, ncas, k)
+					var r *tlsx.ScriptedResult
+					if ep == "gmclient" {
+						cc := tlsx.GMClient(p, "c"+seed)
+						cc.Certificates = []gmtls.Certificate{p.Client.TLS}
+						so := rgmssl.ServerOpts{ID: p.ServerIdentity(), RequestCert: true, CAs: [][]byte{p.SM2Root.Cert.RawSubject, p.SM2Root2.Cert.RawSubject}[:ncas]}
+						r = tlsx.RunAgainstScriptedServer(cc, so, plan, seed, []byte("x"))
+					} else {
+						sc := tlsx.GMServer(p, "s"+seed)
+						if ep == "autoserver" {
+							sc = tlsx.AutoServer(p, p.RSASrv, "s"+seed)
+						}
+						sc.ClientAuth, sc.ClientCAs = gmtls.RequireAndVerifyClientCert, p.RootsSM2
+						co := rgmssl.ClientOpts{Suites: []uint16{tlsx.GMECCSM4CBCSM3}, Cert: p.Client.DER, CertD: p.Client.SM2D}
+						if k%3 == 0 {
+							co.ExtraCerts = [][]byte{p.SM2Root.DER}
+						}
+						r = tlsx.RunAgainstScriptedClient(sc, co, plan, seed, []byte("x"))
+					}
+					if !*fired {
+						t.Fatalf("harness: the inner_len deviation did not fire for %s/%s", ep, step)
+					}
+					nf = lastInnerFields
+					judge(t, r, false, true, fmt.Sprintf("inner length sweep: endpoint=%s step=%s field %d of %d, candidate %d, %d CA names | endpoint: hs=%v | scripted peer: err=%v log=%v", ep, step, k%nf, nf, k/nf, ncas, r.GM.HSErr, r.PeerErr, r.Peer.Log))
+					n++
+				}
+			}
+		}
+		R.Case(true, hx.HashKey("ils", ep), "inner_length_sweep", "endpoint:"+ep)
+	}
+	R.Subspace("inner length/count fields of Certificate, ServerKeyExchange, CertificateRequest (0..2 CA names), ClientKeyExchange, CertificateVerify x 8 candidate values x endpoint kinds", n, true)
+}
+
+// innerLenFields lists (offset, width) of the length and count fields inside the body of a GM/T 0024 handshake message
+// (the 3-byte length of the handshake header is the business of "len_field").
+func innerLenFields(m []byte) (out [][2]int) {
+	if len(m) < 4 {
+		return nil
+	}
+	u := func(off, w int) int {
+		v := 0
+		for j := 0; j < w; j++ {
+			v = v<<8 | int(m[off+j])
+		}
+		return v
+	}
+	list := func(off, lw, ew int) { // a vector with an lw-byte length whose entries carry ew-byte lengths
+		if off+lw > len(m) {
+			return
+		}
+		out = append(out, [2]int{off, lw})
+		end := off + lw + u(off, lw)
+		for e := off + lw; ew > 0 && e+ew <= end && e+ew <= len(m); {
+			out = append(out, [2]int{e, ew})
+			e += ew + u(e, ew)
+		}
+	}
+	switch m[0] {
+	case 11: // Certificate: certificate_list<0..2^24-1> of ASN.1Cert<1..2^24-1>
+		list(4, 3, 3)
+	case 12, 15, 16: // ServerKeyExchange (ECC: signature), CertificateVerify, ClientKeyExchange: one opaque<0..2^16-1>
+		list(4, 2, 0)
+	case 13: // CertificateRequest: certificate_types<1..2^8-1>, certificate_authorities<0..2^16-1> of DistinguishedName<1..2^16-1>
+		list(4, 1, 0)
+		if 5+u(4, 1) < len(m) {
+			list(5+u(4, 1), 2, 2)
+		}
+	}
+	return out
 }
 
 func min(a, b int) int {
@@ -329,6 +455,9 @@ func TestC15_ScriptedDeviations(t *testing.T) {
 				cc.Certificates = []gmtls.Certificate{p.Client.TLS}
 			}
 			so := rgmssl.ServerOpts{ID: p.ServerIdentity(), RequestCert: clientAuth}
+			if clientAuth && d.K%3 != 0 {
+				so.CAs = [][]byte{p.SM2Root.Cert.RawSubject, p.SM2Root2.Cert.RawSubject}[:1+d.K%2]
+			}
 			r = tlsx.RunAgainstScriptedServer(cc, so, plan, seed, []byte("x"))
 		} else {
 			var sc *gmtls.Config
